@@ -97,6 +97,24 @@ impl LibraryRenderer {
 }
 
 impl LibraryRenderer {
+    /// Writes the statements of a body where the syntax requires at least one
+    /// statement (the body of a function, of a loop, of an ELSIF branch). The
+    /// parser reads a body of empty statements as no statements, so a body
+    /// without statements is written as one empty statement.
+    fn visit_required_statements(
+        &mut self,
+        body: &[dsl::textual::StmtKind],
+    ) -> Result<(), Diagnostic> {
+        if body.is_empty() {
+            self.write_ws(";");
+            self.newline();
+        }
+        for item in body.iter() {
+            self.visit_stmt_kind(item)?;
+        }
+        Ok(())
+    }
+
     /// Writes one declaration of a variable block: the name or address, the
     /// type with its initial value and the terminating semicolon.
     fn visit_var_decl_item(&mut self, node: &VarDecl) -> Result<(), Diagnostic> {
@@ -919,9 +937,7 @@ impl Visitor<Diagnostic> for LibraryRenderer {
         }
 
         self.indent();
-        for stmt in node.body.iter() {
-            self.visit_stmt_kind(stmt)?;
-        }
+        self.visit_required_statements(&node.body)?;
         self.outdent();
 
         self.write_ws("END_FUNCTION");
@@ -1535,9 +1551,7 @@ impl Visitor<Diagnostic> for LibraryRenderer {
         self.newline();
 
         self.indent();
-        for item in node.body.iter() {
-            self.visit_stmt_kind(item)?;
-        }
+        self.visit_required_statements(&node.body)?;
         self.outdent();
 
         self.write_ws("UNTIL");
@@ -1593,9 +1607,7 @@ impl Visitor<Diagnostic> for LibraryRenderer {
         self.newline();
 
         self.indent();
-        for item in node.body.iter() {
-            self.visit_stmt_kind(item)?;
-        }
+        self.visit_required_statements(&node.body)?;
         self.outdent();
 
         Ok(())
@@ -1674,9 +1686,7 @@ impl Visitor<Diagnostic> for LibraryRenderer {
         self.newline();
 
         self.indent();
-        for item in node.body.iter() {
-            self.visit_stmt_kind(item)?;
-        }
+        self.visit_required_statements(&node.body)?;
         self.outdent();
 
         self.write_ws("END_FOR");
@@ -1693,9 +1703,7 @@ impl Visitor<Diagnostic> for LibraryRenderer {
         self.newline();
 
         self.indent();
-        for item in node.body.iter() {
-            self.visit_stmt_kind(item)?;
-        }
+        self.visit_required_statements(&node.body)?;
         self.outdent();
 
         self.write_ws("END_WHILE");
